@@ -350,6 +350,7 @@ def wait_for(paths, timeout=20.0):
 
 
 JOBS = max(1, int(os.environ.get("VERIF_JOBS", "2")))
+TIMEOUTS = {"hang_confirmed": False}
 
 
 def pmap(fn, items):
@@ -393,13 +394,16 @@ def drive(ctx, scratch, cases):
         i, c = ic
         req = prep(i, c)
         rc, out, err = sh([ctx.implrun(), "lru-ops"], inp=req + "\n", timeout=60 if ctx.tier == "quick" else 240)
-        if rc == 124:
-            # a time-out is taken for a hang only after it is confirmed with a long limit (a loaded machine starts several
-            # hundred pipe commands slowly): same history, fresh directory
+        if rc == 124 and not TIMEOUTS["hang_confirmed"]:
+            # a time-out is taken for a hang only after it is confirmed ONCE per run with a long limit (a loaded machine starts
+            # several hundred pipe commands slowly): same history, fresh directory.  If the long run completes, the machine is
+            # slow and later time-outs are retried the same way; if it does not, later time-outs are hangs without a retry.
             shutil.rmtree(c["dir"], ignore_errors=True)
             ctx.dist("driver-timeout-retried")
             req = prep(i, c)
-            rc, out, err = sh([ctx.implrun(), "lru-ops"], inp=req + "\n", timeout=900)
+            rc, out, err = sh([ctx.implrun(), "lru-ops"], inp=req + "\n", timeout=600)
+            if rc == 124:
+                TIMEOUTS["hang_confirmed"] = True
         line = (out.splitlines() or [""])[0]
         if rc == 124:
             c["driver"] = "hang"
